@@ -35,3 +35,64 @@ func OrdClean(m map[string]int) []string {
 	sort.Strings(out)
 	return out
 }
+
+type ctlState struct {
+	err error
+	n   int
+}
+
+//go:noinline
+func sink() {}
+
+//go:noinline
+func gate() {}
+
+// PathReqBad reaches sink without the err == nil edge.
+func PathReqBad(s *ctlState) {
+	if s.n > 0 {
+		sink()
+	}
+}
+
+// PathReqGood reaches sink only through err == nil.
+func PathReqGood(s *ctlState) {
+	if s.err == nil && s.n > 0 {
+		sink()
+	}
+}
+
+// PathMptBad may skip gate.
+func PathMptBad(s *ctlState) {
+	if s.n > 0 {
+		gate()
+	}
+	sink()
+}
+
+// PathMptGood skips gate only on a path that cannot reach sink (correlated tests of err).
+func PathMptGood(s *ctlState) {
+	if s.err == nil {
+		gate()
+	}
+	if s.err != nil {
+		return
+	}
+	sink()
+}
+
+// PathNtBad may run sink twice.
+func PathNtBad(s *ctlState) {
+	sink()
+	if s.n > 0 {
+		sink()
+	}
+}
+
+// PathNtGood runs sink at most once.
+func PathNtGood(s *ctlState) {
+	if s.n > 0 {
+		sink()
+	} else {
+		sink()
+	}
+}
